@@ -345,7 +345,7 @@ Proof.
       assert (UA : bused b - bused b mod sz = length EL * sz).
       { rewrite US, mul_mod by assumption. lia. }
       rewrite UA.
-      destruct (fini_range sz (bsize b) EL (S (length EL * sz)) 0 [] J (wctx w) m) as (c1 & m1 & FL & S1 & SC);
+      destruct (fini_range (ehf e) sz (bsize b) EL (S (length EL * sz)) 0 [] J (wctx w) m) as (c1 & m1 & FL & S1 & SC);
         try assumption; try reflexivity.
       { nia. }
       { apply HI. }
